@@ -87,7 +87,9 @@ func (r *Result) finish() {
 	}
 	sort.Strings(rules)
 	for _, rule := range rules {
-		if r.Instances[rule] < r.Floors[rule] {
+		// a margin of one half: refactors that merge duplicated sites lower the count legitimately; what the
+		// floor guards against is a rule that lost (nearly) all its subjects and passes vacuously
+		if r.Instances[rule] < (r.Floors[rule]+1)/2 {
 			r.Obls = append(r.Obls, Obligation{Rule: rule, Key: "FLOOR:" + rule, Pos: "-", Status: Undecided, NonTrivial: true,
 				Detail: fmt.Sprintf("rule %s matched %d instances, below the floor of %d confirmed by reading the tree: its subjects moved out of reach and the property is undecided", rule, r.Instances[rule], r.Floors[rule])})
 		}
